@@ -198,8 +198,10 @@ def entry_points_raise(nodes):
         mpe=lambda: mpe(root, xn), sample=lambda: sample(root, xn),
         prune=lambda: prune(root, copy=True), marginalize=lambda: marginalize(root, [root.scope[0]], copy=True),
         moment=lambda: moment(root, 1),
-        em=lambda: expectation_maximization(root, x, num_iter=1, batch_perc=1.0, step_size=0.5, random_init=False,
+        em=lambda: expectation_maximization(root, x, num_iter=1, batch_perc=0.5, step_size=0.5, random_init=False,
                                             random_state=0, verbose=False),
+        em_random_init=lambda: expectation_maximization(root, x, num_iter=1, batch_perc=0.5, step_size=0.5, random_init=True,
+                                                        random_state=0, verbose=False),
         # the same entry points under their other options (a gate must not depend on an option)
         log_likelihood_parallel=lambda: log_likelihood(root, x, n_jobs=2),
         log_likelihood_results=lambda: log_likelihood(root, x, return_results=True),
@@ -209,12 +211,23 @@ def entry_points_raise(nodes):
         # in-place variants last: if they are (wrongly) accepted they may rewrite the circuit
         marginalize_nocopy=lambda: marginalize(root, [root.scope[0]], copy=False),
         prune_nocopy=lambda: prune(root, copy=False))
+    def raw_fp():
+        out = []
+        for n in nodes:
+            w = getattr(n, "weights", None)
+            out.append((type(n).__name__, tuple(int(v) for v in n.scope), None if w is None else tuple(float(t) for t in np.asarray(w).ravel()),
+                        repr(sorted((k, repr(v)) for k, v in vars(n).items() if k in ("p", "probabilities", "mean", "stddev"))),
+                        tuple(id(c) for c in getattr(n, "children", []))))
+        return out
     bad = []
     for name, f in calls.items():
+        before = raw_fp()
         try:
             f(); bad.append(name)
         except Exception:
-            pass
+            # "rejected before the algorithm touches it": a rejected circuit is exactly what it was
+            if raw_fp() != before:
+                bad.append(name + " (raised, but only after modifying the circuit)")
     return bad
 
 
@@ -500,6 +513,17 @@ def main(tier, seed, replay=None):
             rep.violation(dict(kind="entry-point-did-not-raise-on-rejected-circuit", entry_points=bad, heap=sp.objs, tag=tag), True)
             break
     rep.cov["entry_point_checks"] = n_ep
+    # the probes themselves: on a VALID circuit every one of them must run (otherwise "it raised" proves nothing)
+    from deeprob.spn.structure.leaf import Bernoulli as _B
+    from deeprob.spn.structure.node import Sum as _S, Product as _P, assign_ids as _aid
+    vroot = _S(children=[_P(children=[_B(0, 0.3), _B(1, 0.6)]), _P(children=[_B(0, 0.8), _B(1, 0.1)])], weights=[0.25, 0.75]); _aid(vroot)
+    vnodes = [vroot] + [c for c in vroot.children] + [l for c in vroot.children for l in c.children]
+    ran = entry_points_raise(vnodes)
+    import inspect as _insp
+    n_probes = _insp.getsource(entry_points_raise).count("=lambda:")
+    if len(ran) != n_probes:
+        rep.violation(dict(kind="entry-point-probe-does-not-run-on-a-valid-circuit", ran=ran, expected_number=n_probes), False)
+    rep.cov["entry_point_probes"] = n_probes
     gate_stage(rep, rs, tier)
     for tag, sp in specs[:1] + specs[len(specs) // 2:len(specs) // 2 + 1] + specs[-1:]:
         rep.sample(dict(tag=tag, heap=sp.objs))
